@@ -6,7 +6,7 @@
    SYMBOLIC unforgeability (a tag determines key and items). *)
 From Coq Require Import List String Bool Arith ZArith.
 Import ListNotations.
-From ClasticV Require Import Base.Py Base.Strs Model.Cookie Gen.CookieGuards Proofs.CookieProofs.
+From ClasticV Require Import Base.Py Base.Strs Model.Cookie Gen.CookieGuards Gen.MwShape Proofs.CookieProofs.
 Local Open Scope string_scope.
 Local Open Scope list_scope.
 
@@ -98,3 +98,41 @@ Print Assumptions C16_forged_is_empty.
 Print Assumptions C16_malformed_is_empty.
 Print Assumptions C16_stamped_then_presented.
 Print Assumptions C16_history_refines_dict.
+
+(* obligation on the source: SignedCookieMiddleware.request and the JSONCookie methods that Model/Cookie.v transcribes, statement by statement, regenerated on every run *)
+Theorem C16_cookie_shape :
+  SK_SIGNEDCOOKIEMIDDLEWARE_REQUEST =
+  ["cookie = self._cookie_type.load_cookie(request, key=self.cookie_name, secret_key=self.secret_key)";
+   "response = next(**{self.arg_name: cookie})";
+   "if self.expiry != NEVER and self.expiry != SESSION";
+   "  if '_expires' not in cookie";
+   "    cookie['_expires'] = time.time() + self.expiry";
+   "save_cookie_kwargs = dict(key=self.cookie_name, domain=self.domain, path=self.path, secure=self.secure, httponly=self.http_only)";
+   "if '_expires' in cookie";
+   "  save_cookie_kwargs['expires'] = cookie['_expires']";
+   "cookie.save_cookie(response, **save_cookie_kwargs)";
+   "return response"] /\
+  SK_JSONCOOKIE_QUOTE =
+  ["ret = cls.serialization_method.dumps(value)";
+   "ret = ret.encode('utf8')";
+   "ret = b''.join(base64.b64encode(ret).splitlines()).strip()";
+   "return ret"] /\
+  SK_JSONCOOKIE_UNQUOTE =
+  ["try";
+   "  value = base64.b64decode(value)";
+   "  value = cls.serialization_method.loads(value.decode('utf8'))";
+   "except Exception as e";
+   "  raise UnquoteError()";
+   "return value"] /\
+  SK_JSONCOOKIE_UNSERIALIZE =
+  ["string = string.strip('""')";
+   "try";
+   "  return super(cls, JSONCookie).unserialize(string, secret_key)";
+   "except Exception";
+   "  return cls(secret_key=secret_key)"] /\
+  SK_JSONCOOKIE_SET_EXPIRES =
+  ["if epoch_time == NOW";
+   "  epoch_time = 123456";
+   "self['_expires'] = epoch_time"].
+Proof. repeat split; reflexivity. Qed.
+Print Assumptions C16_cookie_shape.
